@@ -14,6 +14,8 @@ import (
 	"encoding/json"
 	"fmt"
 	"hash/fnv"
+	"io"
+	"log/slog"
 	"net/netip"
 	"os"
 	"os/exec"
@@ -33,6 +35,7 @@ import (
 	"github.com/els0r/goProbe/v4/pkg/query"
 	"github.com/els0r/goProbe/v4/pkg/types"
 	"github.com/els0r/goProbe/v4/pkg/types/hashmap"
+	"github.com/els0r/telemetry/logging"
 )
 
 const (
@@ -44,6 +47,7 @@ const (
 	origCapacity = 64                // workloads per processing unit the original queue could hold
 	bulk         = 32                // goDB.WorkBulkSize
 	writers      = 12                // goroutines writing day directories
+	kaSleep      = 10 * time.Millisecond
 )
 
 // address table: index 0 = attribute absent; 1..4 IPv4, 5..7 IPv6
@@ -83,6 +87,10 @@ type config struct {
 	P      int    `json:"p"`
 	LowMem bool   `json:"lowmem"`
 	Procs  int    `json:"procs"` // GOMAXPROCS (0 = leave)
+	// KA: keepalives enabled (Args.KeepAlive = 1ns: a stats update is logged at every block) and a slow
+	// log sink (the handler sleeps kaSleep between picking up the "processing stats update" record and
+	// resolving its attributes). Only timing is changed. Child modes only (the logger is process-global).
+	KA bool `json:"ka,omitempty"`
 }
 
 type input struct {
@@ -235,13 +243,16 @@ func ifaceArg(in *input) string {
 }
 
 // queryOnce runs the real engine in this process. No watchdog here.
-func queryOnce(db, q, ifaces string, ndays int, lowmem bool) *qresult {
+func queryOnce(db, q, ifaces string, ndays int, lowmem bool, ka bool) *qresult {
 	res := &qresult{NumCPU: runtime.NumCPU()}
 	a := query.NewArgs(q, ifaces,
 		query.WithFirst(strconv.FormatInt(baseTS-day, 10)),
 		query.WithLast(strconv.FormatInt(baseTS+int64(ndays+2)*day, 10)),
 		query.WithNumResults(query.MaxResults), query.WithFormat(types.FormatJSON))
 	a.LowMem = lowmem
+	if ka {
+		a.KeepAlive = time.Nanosecond
+	}
 	out, err := engine.NewQueryRunner(db).Run(context.Background(), a)
 	res.Ended = true
 	if err != nil {
@@ -292,7 +303,7 @@ func runInProc(db string, in *input, c config) *qresult {
 	done := make(chan *qresult, 1)
 	go func() {
 		var res *qresult
-		if p, msg := vhlib.Recover(func() { res = queryOnce(db, in.Query, ifaceArg(in), maxDays(in), c.LowMem) }); p {
+		if p, msg := vhlib.Recover(func() { res = queryOnce(db, in.Query, ifaceArg(in), maxDays(in), c.LowMem, false) }); p {
 			res = &qresult{Ended: true, Err: "panic: " + msg}
 		}
 		done <- res
@@ -319,7 +330,7 @@ func runChild(db string, in *input, c config) *qresult {
 	if c.Mode == "taskset" {
 		p = 0
 	}
-	args := []string{self, "child", db, in.Query, ifaceArg(in), strconv.Itoa(maxDays(in)), strconv.FormatBool(c.LowMem), strconv.Itoa(p), strconv.Itoa(c.Procs)}
+	args := []string{self, "child", db, in.Query, ifaceArg(in), strconv.Itoa(maxDays(in)), strconv.FormatBool(c.LowMem), strconv.Itoa(p), strconv.Itoa(c.Procs), strconv.FormatBool(c.KA)}
 	if c.Mode == "taskset" {
 		args = append([]string{"taskset", "-c", "0"}, args...)
 	}
@@ -349,9 +360,9 @@ func runChild(db string, in *input, c config) *qresult {
 	return &res
 }
 
-// child: db query ifaces ndays lowmem p procs
+// child: db query ifaces ndays lowmem p procs ka
 func childMain(a []string) {
-	if len(a) != 7 {
+	if len(a) != 8 {
 		os.Exit(2)
 	}
 	nd, _ := strconv.Atoi(a[3])
@@ -364,7 +375,22 @@ func childMain(a []string) {
 	if p > 0 {
 		engine.VerifSetNumProcessingUnits(p)
 	}
-	res := queryOnce(a[0], a[1], a[2], nd, lm)
+	ka, _ := strconv.ParseBool(a[7])
+	if ka {
+		// info-level logger (the default level) with a slow sink; output discarded
+		if _, err := logging.Init(slog.LevelInfo, logging.EncodingJSON, logging.WithOutput(io.Discard),
+			logging.WithReplaceAttr(func(_ []string, at slog.Attr) slog.Attr {
+				if at.Key == slog.MessageKey && at.Value.String() == "processing stats update" {
+					time.Sleep(kaSleep)
+				}
+				return at
+			})); err != nil {
+			b, _ := json.Marshal(&qresult{Ended: true, Err: "harness: logger: " + err.Error()})
+			os.Stdout.Write(b)
+			return
+		}
+	}
+	res := queryOnce(a[0], a[1], a[2], nd, lm, ka)
 	b, _ := json.Marshal(res)
 	os.Stdout.Write(b)
 }
@@ -463,7 +489,21 @@ func gen(r *vhlib.Rand, i int, o vhlib.Opts) any {
 		}
 		return termInput(nd, cfgs)
 	}
-	k := i - 2
+	if i == 2 || i == 3 {
+		// keepalive probes: >= 2 workloads, several worker counts, keepalive at every block, slow log sink
+		nd := []int{70, 97}[i-2] // 3 and 4 workloads
+		if thorough || o.Search {
+			nd = []int{130, 161}[i-2]
+		}
+		in := input{Kind: "ka", Query: []string{"sip,dip", "dport,proto"}[i-2], Sched: genSched(r)}
+		in.Ifaces = []ifaceIn{genIface(r, "eth0", nd)}
+		in.Configs = []config{{Mode: "hook", P: 3}}
+		for j, p := range [][]int{{2, 4, 16}, {3, 1, 8}}[i-2] {
+			in.Configs = append(in.Configs, config{Mode: "child", P: p, LowMem: j%2 == 1, KA: true})
+		}
+		return in
+	}
+	k := i - 4
 	if k < len(boundaryDays) {
 		// boundary day counts with every worker count 1..16 and one real one-CPU run
 		in := input{Kind: "eq", Query: queryTypes[k%len(queryTypes)], Sched: genSched(r)}
@@ -508,6 +548,9 @@ func gen(r *vhlib.Rand, i int, o vhlib.Opts) any {
 			c.LowMem = !c.LowMem
 		}
 		in.Configs = append(in.Configs, c)
+	}
+	if maxDays(&in) > bulk && maxDays(&in) <= 100 && r.Chance(20) {
+		in.Configs = append(in.Configs, config{Mode: "child", P: 1 + r.Intn(6), LowMem: r.Bool(), KA: true})
 	}
 	return in
 }
@@ -666,6 +709,9 @@ func run(raw json.RawMessage, o vhlib.Opts) (*vhlib.Case, error) {
 		if c.Mode != "hook" {
 			tags = append(tags, "mode:"+c.Mode)
 		}
+		if c.KA {
+			tags = append(tags, fmt.Sprintf("keepalive:P=%d", c.P))
+		}
 	}
 	if !allEnded {
 		tags = append(tags, "NOT-ENDED")
@@ -673,7 +719,7 @@ func run(raw json.RawMessage, o vhlib.Opts) (*vhlib.Case, error) {
 	if !allSame {
 		tags = append(tags, "CONFIGS-DIFFER")
 	}
-	return &vhlib.Case{Observed: obs, Tags: tags, Nontrivial: total > bulk || in.Kind == "term", Coq: coq}, nil
+	return &vhlib.Case{Observed: obs, Tags: tags, Nontrivial: total > bulk || in.Kind != "eq", Coq: coq}, nil
 }
 
 func main() {
